@@ -594,3 +594,13 @@ func (ctx *EvalCtx) loadedInContract(v *Term, t types.Type) *Term {
 	}
 	return v
 }
+
+// allValueLike: every parameter (and the receiver) of fn is a plain value, so an effect-free fn is a function of them.
+func (ex *Exec) allValueLike(fn *ssa.Function) bool {
+	for _, t := range sigParamTypes(fn.Signature) {
+		if !ex.valueLike(t) {
+			return false
+		}
+	}
+	return !strings.HasPrefix(fn.String(), "time.Now") && !strings.HasPrefix(fn.String(), "time.Since") && !strings.Contains(fn.String(), "rand.")
+}
